@@ -281,6 +281,14 @@ def check_tree(tree, rec, n_expected):
 def enum_cases(tier):
     for spec in enumer.forests_upto(6 if tier == "quick" else 9):
         yield {"spec": spec}
+    # narrow and deep: leaves on few, far apart levels (a chain of d nodes next to / below shallow leaves)
+    for d in range(2, 14 if tier == "quick" else 40):
+        def chain(k, tag):
+            return [] if k == 0 else [[f"{tag}{k}", chain(k - 1, tag)]]
+
+        yield {"spec": [["l0", []]] + chain(d, "c")}
+        yield {"spec": chain(d, "c") + [["l0", []]]}
+        yield {"spec": [["top", [["l1", []]] + chain(d, "c") + [["l2", [["l3", []]]]]]]}
 
 
 # (names that contain the path separators in use: "/", "|", " > ")
